@@ -27,9 +27,18 @@ type Src struct {
 	Text string // complete file: package main; imports; decls; func main()
 }
 
-// HSource is the go/types view of verif/engine/twin/h (kept in sync by a test in the runner: Show only).
+// HSource is the go/types view of verif/engine/twin/h (Show and the typed recorders of C07).
 const HSource = `package h
 func Show(a ...interface{}) {}
+func HAny(x interface{}) string { return "" }
+func HTwo(a interface{}, b int) string { return "" }
+func HVar(xs ...interface{}) string { return "" }
+func HInt(x int) string { return "" }
+func HStr(x string) string { return "" }
+func HInts(xs []int) string { return "" }
+func HErr(e error) string { return "" }
+func HFn(f func(int) int) string { return "" }
+func HIntP(p *int) string { return "" }
 `
 
 type mapImporter struct {
